@@ -187,7 +187,7 @@ def run(ctx):
     forms_checks(ctx, None)
     d = os.path.join(ctx.scratch, "runs"); os.makedirs(d, exist_ok=True)
     grid = [dict(p=p, mc=mc, mt=mt) for p in ctx.pick((1, 2), (1, 2, 3)) for mc in (0, 1, 2) for mt in (0, 1, 2)]
-    nsched = ctx.pick(3, 6)       # schedules per (shape, variant, configuration); thorough: 8 shapes x 2 variants x 26 configurations x 6 = 2.5 k runs (25 did not finish within 65 min)
+    nsched = ctx.pick(3, 4)       # schedules per (shape, variant, configuration); thorough: 8 shapes x 2 variants x 26 configurations x 4 = 1.7 k runs (6 and more did not finish their trace validation within an hour on a busy machine)
     traces = []; meta = []
     shapes = SHAPES[:ctx.pick(4, 6)] + explib.BUILTIN_SHAPES
     for si, shape in enumerate(shapes):
